@@ -22,8 +22,9 @@ type conflictCase struct {
 	Fam   string `json:"fam"`
 	Prios []int  `json:"prios"`
 	// ownerLabels only: further pods of the owner agreeing with the non-deviating pod; whether the deviating pod comes first
-	Sib      int  `json:"sib"`
-	DevFirst bool `json:"devFirst"`
+	Sib      int    `json:"sib"`
+	DevFirst bool   `json:"devFirst"`
+	Dev      string `json:"dev"` // how the deviating pod's labels differ: value | extraKey | extraEmptyKey
 }
 
 type conflictRun struct {
@@ -98,14 +99,20 @@ spec:
     - podSelector: {}
 `
 
-func ownedPodDoc(name, label string) string {
+func ownedPodDoc(name, label string) string { return ownedPodDocX(name, label, "") }
+
+// extra: a further label line ("" = none), e.g. `canary: ""`
+func ownedPodDocX(name, label, extra string) string {
+	if extra != "" {
+		extra = "\n    " + extra
+	}
 	return fmt.Sprintf(`apiVersion: v1
 kind: Pod
 metadata:
   name: %s
   namespace: ns1
   labels:
-    app: %s
+    app: %s%s
   ownerReferences:
   - apiVersion: apps/v1
     kind: ReplicaSet
@@ -116,7 +123,7 @@ spec:
   containers:
   - name: c
     image: img
-`, name, label)
+`, name, label, extra)
 }
 
 const baseDocs = `apiVersion: v1
@@ -211,7 +218,14 @@ func materialise(c conflictCase, withConflict bool) (docs []string, names []stri
 			for k := 0; k < c.Sib; k++ {
 				extra[sibPos] = append(extra[sibPos], ownedPodDoc(fmt.Sprintf("own-aa%d", k), "a"))
 			}
-			extra[devPos] = append(extra[devPos], ownedPodDoc("own-bbb", "b"))
+			switch c.Dev {
+			case "extraKey":
+				extra[devPos] = append(extra[devPos], ownedPodDocX("own-bbb", "a", `canary: "yes"`))
+			case "extraEmptyKey":
+				extra[devPos] = append(extra[devPos], ownedPodDocX("own-bbb", "a", `canary: ""`))
+			default:
+				extra[devPos] = append(extra[devPos], ownedPodDoc("own-bbb", "b"))
+			}
 			names = []string{"ns1/own"}
 		}
 	}
